@@ -20,7 +20,9 @@ EXTENDS Bits, Json, TLC
 CONSTANT TraceFile
 Trace == ndJsonDeserialize(TraceFile)
 
-VARIABLE i
+VARIABLES i,           \* number of the event being judged
+          tt,          \* table of full type descriptors, computed once in Init
+          bt           \* bit-operation tables (Bignum!BitTables), computed once in Init
 
 Fields == {"k", "t", "op", "a", "b", "out", "r", "out2", "r2"}
 
@@ -28,21 +30,21 @@ WF(e) == /\ Fields \subseteq DOMAIN e
          /\ e.t \in TypeNames
          /\ e.op \in (ArithOps \cup SatOps \cup BitOps \cup ShiftOps)
          /\ IsZ(e.a) /\ IsZ(e.b) /\ IsZ(e.r) /\ IsZ(e.r2)
-         /\ InRange(TypeOf(e.t), e.a)
-         /\ InRange(TypeOf(e.t), e.b)
+         /\ InRange(tt[e.t], e.a)
+         /\ InRange(tt[e.t], e.b)
          /\ (e.out # "ok" => ZIsZero(e.r))
          /\ (e.out2 # "ok" => ZIsZero(e.r2))
 
 Judgeable(e) ==
-  LET T == TypeOf(e.t)
+  LET T == tt[e.t]
   IN IF e.op \in (ArithOps \cup SatOps) THEN HasArithOp(T, e.op)
      ELSE BitsJudgeable(T, e.op, e.a, e.b)
 
 Valid(e) ==
-  LET T == TypeOf(e.t)
+  LET T == tt[e.t]
   IN IF e.op \in (ArithOps \cup SatOps)
      THEN ValidArith(T, e.op, e.a, e.b, e.out, e.r, e.out2, e.r2)
-     ELSE ValidBits(T, e.op, e.a, e.b, e.out, e.r)
+     ELSE ValidBits(bt, T, e.op, e.a, e.b, e.out, e.r)
 
 Verdict(e) == IF ~WF(e) THEN "malformed"
               ELSE IF ~Judgeable(e) THEN "unjudgeable"
@@ -58,22 +60,22 @@ AmountClass(T, b) ==
   ELSE "amount<width"
 
 Class(e) ==
-  LET T == TypeOf(e.t)
+  LET T == tt[e.t]
   IN IF e.op \in ShiftOps THEN AmountClass(T, e.b) \o "," \o SignName(e.a)
      ELSE SignName(e.a) \o "," \o SignName(e.b)
 
 Deviation(e) ==
   IF e.op \in (BitOps \cup ShiftOps)
-  THEN BitsDeviation(TypeOf(e.t), e.op, e.a, e.b, e.out, e.r)
+  THEN BitsDeviation(tt[e.t], e.op, e.a, e.b, e.out, e.r)
   ELSE "none"
 
 Report(e, v) ==
   IF v = "bad" THEN PrintT(ToJson([k |-> e.k, v |-> v, cls |-> Class(e), dev |-> Deviation(e)]))
   ELSE PrintT(ToJson([k |-> e.k, v |-> v, cls |-> "", dev |-> "none"]))
 
-Init == i = 0
-Next == i < Len(Trace) /\ i' = i + 1
-Spec == Init /\ [][Next]_i
+Init == i = 0 /\ tt = FullTypeTable /\ bt = BitTables
+Next == i < Len(Trace) /\ i' = i + 1 /\ UNCHANGED <<tt, bt>>
+Spec == Init /\ [][Next]_<<i, tt, bt>>
 
 \* always TRUE: a rejected event is printed, not a model error
 Judged == i = 0 \/ LET e == Trace[i]
